@@ -122,4 +122,439 @@ theorem sim_reqCapped (pol : Policy) (hp : Conforming pol) (s : S) (g : G) (R : 
       cases hl : s.limit <;> simp [hl] at h3 ⊢ <;> omega
     simp [stepS, he, key]
 
+
+theorem sim_peekAt (pol : Policy) (hp : Conforming pol) (s : S) (g : G) (R : Rel s g) (i : Nat) :
+    StepOK pol s (.peekAt i) (.byte (g.request (i + 1)).view[i]?) (g.request (i + 1)) := by
+  rcases request_spec pol hp s (i + 1) R.granted with ⟨hf, he⟩ | ⟨hf, g', he, h1, h2, h3⟩
+  · left; exact ⟨hf, by simp [stepS, he]⟩
+  · right
+    have v := vlen s g R
+    let s1 : S := { s with reqs := s.reqs + 1, granted := g' }
+    refine ⟨s1, ?_, rel_request s g R (i + 1) g' h1 h2 h3, rfl⟩
+    rw [view_request]
+    by_cases hv : i < g.view.length
+    · -- the octet is there: the stream source has granted it
+      have hr : ¬ (match s.limit with | some l => min l g' | none => g') ≤ i := by
+        rw [v] at hv
+        cases hl : s.limit <;> simp [hl] at h3 hv ⊢ <;> omega
+      have hsl : s1.slice[i]? = s1.data[i]? := by
+        apply slice_getElem
+        · show i < g'
+          rw [v] at hv
+          cases hl : s.limit <;> simp [hl] at h3 hv ⊢ <;> omega
+        · show match s.limit with | some l => i < l | none => True
+          rw [v] at hv
+          cases hl : s.limit <;> simp [hl] at hv ⊢; omega
+        · exact h2
+      have hd : s1.data[i]? = g.view[i]? := by
+        rw [view_getElem g i hv, R.data]
+      have hsome : ∃ b, g.view[i]? = some b := ⟨g.view[i], by simp [hv]⟩
+      obtain ⟨b, hb⟩ := hsome
+      simp only [stepS, he, hr, if_false]
+      rw [show s1.slice[i]? = some b from by rw [hsl, hd, hb]]
+      simp [hb]
+      rfl
+    · have hr : (match s.limit with | some l => min l g' | none => g') ≤ i := by
+        rw [v] at hv
+        cases hl : s.limit <;> simp [hl] at hv ⊢ <;> omega
+      have : g.view[i]? = none := by simp; omega
+      simp [stepS, he, hr, this]
+      rfl
+
+theorem sim_peek2 (pol : Policy) (hp : Conforming pol) (s : S) (g : G) (R : Rel s g) :
+    StepOK pol s .peek2
+      (.peek (min 2 (g.request 2).view.length) (g.request 2).view[0]? (g.request 2).view[1]?) (g.request 2) := by
+  rcases request_spec pol hp s 2 R.granted with ⟨hf, he⟩ | ⟨hf, g', he, h1, h2, h3⟩
+  · left; exact ⟨hf, by simp [stepS, he]⟩
+  · right
+    have v := vlen s g R
+    let s1 : S := { s with reqs := s.reqs + 1, granted := g' }
+    refine ⟨s1, ?_, rel_request s g R 2 g' h1 h2 h3, rfl⟩
+    rw [view_request]
+    have hn : min 2 (match s.limit with | some l => min l g' | none => g') = min 2 g.view.length := by
+      rw [v]; cases hl : s.limit <;> simp [hl] at h3 ⊢ <;> omega
+    -- element i of the slice agrees with element i of the view, for i < 2
+    have elem : ∀ i, i < 2 → s1.slice[i]? = g.view[i]? := by
+      intro i hi
+      by_cases hv : i < g.view.length
+      · rw [view_getElem g i hv, R.data]
+        apply slice_getElem
+        · show i < g'
+          rw [v] at hv; cases hl : s.limit <;> simp [hl] at h3 hv ⊢ <;> omega
+        · show match s.limit with | some l => i < l | none => True
+          rw [v] at hv; cases hl : s.limit <;> simp [hl] at hv ⊢; omega
+        · exact h2
+      · have h1' : g.view[i]? = none := by simp; omega
+        rw [h1']
+        -- the slice is no longer than the view
+        have hlen : (s.data.take g').length = g' := by simp [List.length_take]; omega
+        have : s1.slice.length ≤ g.view.length := by
+          rw [v]
+          show (S.slice s1).length ≤ _
+          unfold S.slice
+          cases hl : s.limit with
+          | none => simp only [s1, hl]; rw [hlen]; omega
+          | some l =>
+            simp only [s1, hl]
+            split
+            · rename_i hgt; rw [hlen] at hgt; rw [List.length_take, hlen]; omega
+            · rename_i hgt; rw [hlen] at hgt ⊢; omega
+        simp; omega
+    have e0 := elem 0 (by omega)
+    have e1 := elem 1 (by omega)
+    simp only [stepS, he, hn]
+    refine congrArg Except.ok (Prod.ext ?_ rfl)
+    show Resp.peek _ _ _ = Resp.peek _ _ _
+    rw [e0, e1]
+
+
+theorem adv_sim (s : S) (g : G) (R : Rel s g) (n : Nat) (g' : G) (h : g.advance n = .ok g') :
+    ∃ s', s.advance n = .ok s' ∧ Rel s' g' ∧ s'.failAt = s.failAt := by
+  have hs := R.seen; have hg := R.granted
+  unfold G.advance at h
+  split at h
+  · simp at h
+  · split at h
+    · simp at h
+    · rename_i h1 h2
+      rw [R.frames, R.limit] at h
+      cases hl : s.limit with
+      | none =>
+        rw [hl] at h
+        simp only [Except.ok.injEq] at h
+        subst h
+        refine ⟨{ s with data := s.data.drop n, granted := s.granted - n }, ?_, ?_, rfl⟩
+        · have : ¬ s.granted < n := by omega
+          simp [S.advance, hl, this]
+        · constructor
+          · simp [R.data]
+          · simp [hl]
+          · rfl
+          · simp; omega
+          · simp [List.length_drop]; rw [R.data] at h2; omega
+      | some l =>
+        rw [hl] at h
+        simp only at h
+        split at h
+        · simp at h
+        · rename_i h3
+          simp only [Except.ok.injEq] at h
+          subst h
+          refine ⟨{ s with data := s.data.drop n, granted := s.granted - n, limit := some (l - n) }, ?_, ?_, rfl⟩
+          · have : ¬ s.granted < n := by omega
+            simp [S.advance, hl, this, h3]
+          · constructor
+            · simp [R.data]
+            · rfl
+            · rfl
+            · simp; omega
+            · simp [List.length_drop]; rw [R.data] at h2; omega
+
+theorem sim_skipN (pol : Policy) (s : S) (g : G) (R : Rel s g) (n : Nat) (r : Resp) (g' : G)
+    (h : stepG g (.skipN n) = .ok (r, g')) : StepOK pol s (.skipN n) r g' := by
+  right
+  simp only [stepG] at h
+  split at h
+  · simp at h
+  · cases ha : g.advance n with
+    | error e => simp [ha] at h
+    | ok g1 =>
+      simp [ha] at h
+      obtain ⟨hr, hg⟩ := h
+      subst hr; subst hg
+      obtain ⟨s', hs, R', hf⟩ := adv_sim s g R n g1 ha
+      exact ⟨s', by simp [stepS, hs], R', hf⟩
+
+theorem sim_takeN (pol : Policy) (s : S) (g : G) (R : Rel s g) (n : Nat) (r : Resp) (g' : G)
+    (h : stepG g (.takeN n) = .ok (r, g')) : StepOK pol s (.takeN n) r g' := by
+  right
+  simp only [stepG] at h
+  split at h
+  · simp at h
+  · rename_i hv
+    split at h
+    · simp at h
+    · rename_i hseen
+      cases ha : g.advance n with
+      | error e => simp [ha] at h
+      | ok g1 =>
+        simp [ha] at h
+        obtain ⟨hr, hg⟩ := h
+        subst hr; subst hg
+        obtain ⟨s', hs, R', hf⟩ := adv_sim s g R n g1 ha
+        have v := vlen s g R
+        have hb : s.bytes0 n = .ok (s.data.take n) := by
+          have hs' := R.seen
+          have : ¬ s.granted < n := by omega
+          unfold S.bytes0
+          cases hl : s.limit with
+          | none => simp [this]
+          | some l =>
+            rw [v, hl] at hv
+            have : ¬ l < n := by simp at hv; omega
+            simp [this, *]
+        exact ⟨s', by simp [stepS, hb, hs, R.data], R', hf⟩
+
+theorem sim_sliceN (pol : Policy) (s : S) (g : G) (R : Rel s g) (n : Nat) (r : Resp) (g' : G)
+    (h : stepG g (.sliceN n) = .ok (r, g')) : StepOK pol s (.sliceN n) r g' := by
+  right
+  simp only [stepG] at h
+  split at h
+  · simp at h
+  · rename_i hv
+    split at h
+    · simp at h
+    · rename_i hseen
+      simp at h
+      obtain ⟨hr, hg⟩ := h
+      subst hr; subst hg
+      have v := vlen s g R
+      have hs' := R.seen; have hg' := R.granted
+      have hlen : (s.data.take s.granted).length = s.granted := by simp [List.length_take]; omega
+      -- the slice has at least n octets and its first n are those of the data
+      have key : n ≤ s.slice.length ∧ s.slice.take n = s.data.take n := by
+        unfold S.slice
+        cases hl : s.limit with
+        | none =>
+          simp only
+          refine ⟨by rw [hlen]; omega, ?_⟩
+          rw [List.take_take]; congr 1; omega
+        | some l =>
+          rw [v, hl] at hv
+          simp only
+          split
+          · refine ⟨by rw [List.length_take, hlen]; simp at hv; omega, ?_⟩
+            rw [List.take_take, List.take_take]; congr 1; simp at hv; omega
+          · refine ⟨by rw [hlen]; omega, ?_⟩
+            rw [List.take_take]; congr 1; omega
+      refine ⟨s, ?_, R, rfl⟩
+      have : ¬ s.slice.length < n := by omega
+      simp [stepS, this, key.2, R.data]
+
+theorem sim_getLimit (pol : Policy) (s : S) (g : G) (R : Rel s g) :
+    StepOK pol s .getLimit (.lim g.limit) g := by
+  right; exact ⟨s, by simp [stepS, R.limit], R, rfl⟩
+
+theorem sim_setLimit (pol : Policy) (s : S) (g : G) (R : Rel s g) (l : Option Nat) :
+    StepOK pol s (.setLimit l) .unit { g with limit := l } := by
+  right
+  refine ⟨{ s with limit := l }, by simp [stepS], ?_, rfl⟩
+  exact ⟨R.data, rfl, R.frames, R.seen, R.granted⟩
+
+
+theorem sim_takeOptU8 (pol : Policy) (hp : Conforming pol) (s : S) (g : G) (R : Rel s g) (r : Resp) (g' : G)
+    (h : stepG g .takeOptU8 = .ok (r, g')) : StepOK pol s .takeOptU8 r g' := by
+  rcases request_spec pol hp s 1 R.granted with ⟨hf, he⟩ | ⟨hf, g1, he, h1, h2, h3⟩
+  · left; exact ⟨hf, by simp [stepS, he]⟩
+  · right
+    have v := vlen s g R
+    have R1 := rel_request s g R 1 g1 h1 h2 h3
+    simp only [stepG] at h
+    rw [view_request] at h
+    cases hv : g.view with
+    | nil =>
+      rw [hv] at h
+      simp at h
+      obtain ⟨hr, hg⟩ := h
+      subst hr; subst hg
+      have hz : (match s.limit with | some l => min l g1 | none => g1) < 1 := by
+        have : g.view.length = 0 := by simp [hv]
+        rw [v] at this
+        cases hl : s.limit with
+        | none => rw [hl] at this; simp only at this ⊢; omega
+        | some l => rw [hl] at this; simp only at this ⊢; omega
+      exact ⟨_, by simp [stepS, he, hz], R1, rfl⟩
+    | cons b rest =>
+      rw [hv] at h
+      simp only at h
+      cases ha : (g.request 1).advance 1 with
+      | error e => simp [ha] at h
+      | ok g2 =>
+        simp [ha] at h
+        obtain ⟨hr, hg⟩ := h
+        subst hr; subst hg
+        obtain ⟨s2, hs2, R2, hf2⟩ := adv_sim _ _ R1 1 g2 ha
+        have hpos : 0 < g.view.length := by simp [hv]
+        have hz : ¬ (match s.limit with | some l => min l g1 | none => g1) < 1 := by
+          rw [v] at hpos
+          cases hl : s.limit <;> simp [hl] at hpos h3 ⊢ <;> omega
+        let s1 : S := { s with reqs := s.reqs + 1, granted := g1 }
+        have hsl : s1.slice[0]? = some b := by
+          have : s1.slice[0]? = s1.data[0]? := by
+            apply slice_getElem
+            · show 0 < g1
+              rw [v] at hpos; cases hl : s.limit <;> simp [hl] at hpos h3 ⊢ <;> omega
+            · show match s.limit with | some l => 0 < l | none => True
+              rw [v] at hpos; cases hl : s.limit <;> simp [hl] at hpos ⊢; omega
+            · exact h2
+          rw [this]
+          show s.data[0]? = some b
+          rw [← R.data, ← view_getElem g 0 hpos, hv]; rfl
+        have hcons : ∃ t, s1.slice = b :: t := by
+          cases hh : s1.slice with
+          | nil => rw [hh] at hsl; simp at hsl
+          | cons x t => rw [hh] at hsl; simp at hsl; exact ⟨t, by rw [hsl]⟩
+        obtain ⟨t, ht⟩ := hcons
+        refine ⟨s2, ?_, R2, hf2⟩
+        simp only [stepS, he, hz, if_false]
+        show (match s1.slice with
+          | [] => Except.error (Err.panic "index 0 out of range")
+          | b :: _ => match s1.advance 1 with
+            | .ok s2 => .ok (Resp.byte (some b), s2)
+            | .error e => .error e) = _
+        rw [ht]
+        simp only
+        rw [show s1.advance 1 = .ok s2 from hs2]
+
+/-- every operation except the capture frame operations is simulated -/
+theorem step_sim (pol : Policy) (hp : Conforming pol) (s : S) (g : G) (R : Rel s g) (o : Op)
+    (h1 : o ≠ .capBegin) (h2 : o ≠ .capEnd) (r : Resp) (g' : G) (h : stepG g o = .ok (r, g')) :
+    StepOK pol s o r g' := by
+  cases o with
+  | takeOptU8 => exact sim_takeOptU8 pol hp s g R r g' h
+  | peekAt i =>
+    simp only [stepG, Except.ok.injEq, Prod.mk.injEq] at h
+    obtain ⟨hr, hg⟩ := h; subst hr; subst hg
+    exact sim_peekAt pol hp s g R i
+  | peek2 =>
+    simp only [stepG, Except.ok.injEq, Prod.mk.injEq] at h
+    obtain ⟨hr, hg⟩ := h; subst hr; subst hg
+    exact sim_peek2 pol hp s g R
+  | need n =>
+    simp only [stepG, Except.ok.injEq, Prod.mk.injEq] at h
+    obtain ⟨hr, hg⟩ := h; subst hr; subst hg
+    exact sim_need pol hp s g R n
+  | takeN n => exact sim_takeN pol s g R n r g' h
+  | skipN n => exact sim_skipN pol s g R n r g' h
+  | sliceN n => exact sim_sliceN pol s g R n r g' h
+  | getLimit =>
+    simp only [stepG, Except.ok.injEq, Prod.mk.injEq] at h
+    obtain ⟨hr, hg⟩ := h; subst hr; subst hg
+    exact sim_getLimit pol s g R
+  | setLimit l =>
+    simp only [stepG, Except.ok.injEq, Prod.mk.injEq] at h
+    obtain ⟨hr, hg⟩ := h; subst hr; subst hg
+    exact sim_setLimit pol s g R l
+  | reqCapped n =>
+    simp only [stepG, Except.ok.injEq, Prod.mk.injEq] at h
+    obtain ⟨hr, hg⟩ := h; subst hr; subst hg
+    exact sim_reqCapped pol hp s g R n
+  | capBegin => exact absurd rfl h1
+  | capEnd => exact absurd rfl h2
+
+
+theorem advance_err_panic (g : G) (n : Nat) (e : Err) (h : g.advance n = .error e) : e.isPanic = true := by
+  unfold G.advance at h
+  by_cases h1 : g.seen < n
+  · simp [h1] at h; subst h; rfl
+  · by_cases h2 : g.data.length < n
+    · simp [h1, h2] at h; subst h; rfl
+    · simp only [h1, h2, if_false] at h
+      cases hl : g.limit with
+      | none => simp [hl] at h
+      | some l =>
+        simp only [hl] at h
+        by_cases h3 : l < n
+        · simp [h3] at h; subst h; rfl
+        · simp [h3] at h
+
+/-- the generous layer itself only ever fails with a panic (contract breach, index, assertion) -/
+theorem stepG_err_panic (g : G) (o : Op) (e : Err) (h : stepG g o = .error e) : e.isPanic = true := by
+  cases o with
+  | takeOptU8 =>
+    simp only [stepG] at h
+    split at h
+    · cases h
+    · split at h
+      · cases h
+      · rename_i e' ha; cases h; exact advance_err_panic _ _ _ ha
+  | peekAt i => simp [stepG] at h
+  | peek2 => simp [stepG] at h
+  | need n => simp [stepG] at h
+  | takeN n =>
+    simp only [stepG] at h
+    split at h
+    · cases h; rfl
+    · split at h
+      · cases h; rfl
+      · split at h
+        · cases h
+        · rename_i e' ha; cases h; exact advance_err_panic _ _ _ ha
+  | skipN n =>
+    simp only [stepG] at h
+    split at h
+    · cases h; rfl
+    · split at h
+      · cases h
+      · rename_i e' ha; cases h; exact advance_err_panic _ _ _ ha
+  | sliceN n =>
+    simp only [stepG] at h
+    split at h
+    · cases h; rfl
+    · split at h
+      · cases h; rfl
+      · cases h
+  | getLimit => simp [stepG] at h
+  | setLimit l => simp [stepG] at h
+  | reqCapped n => simp [stepG] at h
+  | capBegin => simp [stepG] at h
+  | capEnd =>
+    simp only [stepG] at h
+    split at h
+    · cases h; rfl
+    · split at h
+      · split at h
+        · cases h; rfl
+        · cases h
+      · cases h
+
+/-- **Simulation**: a capture-free program that the generous layer runs without a panic is run by
+    the stream layer, over ANY conforming grant policy and with ANY request failing, to the same
+    value and the same remaining input - or, only if a fault is armed, to the injected source error. -/
+theorem run_sim (pol : Policy) (hp : Conforming pol) (p : Prog α) (hn : NoCap p) :
+    ∀ (s : S) (g : G), Rel s g →
+      (∀ a g', runG p g = .ok (a, g') →
+        (s.failAt ≠ none ∧ runS pol p s = .error .source) ∨
+        ∃ s', runS pol p s = .ok (a, s') ∧ Rel s' g' ∧ s'.failAt = s.failAt) ∧
+      (∀ e, runG p g = .error e → e.isPanic = false →
+        (s.failAt ≠ none ∧ runS pol p s = .error .source) ∨ runS pol p s = .error e) := by
+  induction hn with
+  | ret a =>
+    intro s g R
+    exact ⟨fun a' g' h => by simp [runG] at h; obtain ⟨h1, h2⟩ := h; subst h1; subst h2
+                             exact Or.inr ⟨s, rfl, R, rfl⟩,
+           fun e h => by simp [runG] at h⟩
+  | fail e0 =>
+    intro s g R
+    exact ⟨fun a g' h => by simp [runG] at h,
+           fun e h _ => by simp [runG] at h; subst h; exact Or.inr rfl⟩
+  | op o k h1 h2 hk ih =>
+    intro s g R
+    cases hs : stepG g o with
+    | error e0 =>
+      constructor
+      · intro a g' h; simp [runG, hs] at h
+      · intro e h hp'
+        simp [runG, hs] at h; subst h
+        rw [stepG_err_panic g o e0 hs] at hp'; cases hp'
+    | ok rg =>
+      obtain ⟨r, g1⟩ := rg
+      rcases step_sim pol hp s g R o h1 h2 r g1 hs with ⟨hfa, hsrc⟩ | ⟨s1, hs1, R1, hf1⟩
+      · have hne : s.failAt ≠ none := by rw [hfa]; simp
+        constructor
+        · intro a g' _; left; exact ⟨hne, by simp [runS, hsrc]⟩
+        · intro e _ _; left; exact ⟨hne, by simp [runS, hsrc]⟩
+      · have := ih r s1 g1 R1
+        constructor
+        · intro a g' h
+          simp only [runG, hs] at h
+          rcases this.1 a g' h with ⟨hne, hsrc⟩ | ⟨s', hs', R', hf'⟩
+          · left; exact ⟨by rw [← hf1]; exact hne, by simp [runS, hs1, hsrc]⟩
+          · right; exact ⟨s', by simp [runS, hs1, hs'], R', by rw [hf', hf1]⟩
+        · intro e h hp'
+          simp only [runG, hs] at h
+          rcases this.2 e h hp' with ⟨hne, hsrc⟩ | he
+          · left; exact ⟨by rw [← hf1]; exact hne, by simp [runS, hs1, hsrc]⟩
+          · right; simp [runS, hs1, he]
+
 end Bcder
